@@ -153,8 +153,8 @@ def run(ctx):
     #    counts its instances and throws on demand), pushes through every public form, consumers and producers
     #    polling or awaiting in coroutines
     names = [("plain", "checked"), ("poll", "coro"), ("poll", "coro")]
-    # thorough bounds: limit+4 pushes, limit+3 pops, 2+2 unblocks, 1 throwing push
-    deep = {} if ctx.quick else {"ExtraPush": 4, "ExtraPop": 3, "MaxUnblockPush": 2, "MaxUnblockPop": 2}
+    # thorough bounds: limit+4 pushes, limit+2 pops, 2+2 unblocks, 1 throwing push
+    deep = {} if ctx.quick else {"ExtraPush": 4, "MaxUnblockPop": 2}
     if os.environ.get("C10_THROW_AT_HANDOVER"):
         # only for a tree in which a throwing push no longer loses the waiting consumer (see LimitedQueue.tla)
         deep["ThrowAtHandover"] = "TRUE"
@@ -216,10 +216,18 @@ def run(ctx):
                "a smaller 2+2 thread configuration (limits 1..2) on real threads with the queue's mutex virtualised: one "
                "scheduled step per critical section and per post-unlock resolution; the large concurrent model "
                "(limits 1..4) is TLC only")
-    ctx.assume("item types int and an instance-counting class; limits 1..4; limit 0 (no push can ever complete) excluded; "
-               "limited_queue<void> does not instantiate (std::pair<void,...>) and is not covered")
+    ctx.assume("item type of the single-client replay: a class that records its constructor, arguments and copy "
+               "constructions, counts live instances and throws on demand; pushes rotate over the forms push(a), push(a,b), "
+               "push(const T&), push(T&&); the number of MOVE constructions an item goes through is not compared (it is fixed by "
+               "std::pair/std::deque internals, not by queue.h); the multi-thread replay uses int items; limits 1..4; limit 0 "
+               "(no push can ever complete) excluded; limited_queue<void> does not instantiate (std::pair<void,...>)")
+    ctx.assume("throwing construction: one push per history whose item constructor throws (first constructor to run during the "
+               "call), in the room and in the blocked branch; NOT while a consumer waits (hand-over branch): at 5fcdbbb the "
+               "waiting pop is taken out of _awaiters, its promise claimed and its future left pending for ever -- reported "
+               "as a candidate defect; LimitedQueue.tla ThrowAtHandover = TRUE (C10_THROW_AT_HANDOVER=1) models the repaired "
+               "behaviour; constructors throwing inside pop (move of the delivered item) are not modelled")
     ctx.assume("futures are abstracted to pending|value|exception|canceled with a single resolver each "
                "(justified by C01/C02); the replay uses the real futures; a future awaited by at most one coroutine")
-    ctx.assume("bounds: at most limit+3 pushes, limit+2 pops, 2 unblock_push, 2 unblock_pop per history in quick "
-               "(limit+4, limit+3, 3, 2 in thorough); concurrent model: limit+3 pushes, limit+2 (thorough limit+3) pops, "
-               "1 (thorough 2) unblock_push, 1 unblock_pop")
+    ctx.assume("bounds: at most limit+3 pushes, limit+2 pops, 2 unblock_push, 1 unblock_pop, 1 throwing push per history in "
+               "quick (limit+4, limit+2, 2, 2, 1 in thorough); concurrent model: limit+3 pushes, limit+2 (thorough limit+3) "
+               "pops, 1 (thorough 2) unblock_push, 1 unblock_pop, no throwing push")
